@@ -203,6 +203,9 @@ def run(ctx):
     from .. import gen as G
     ctx.level('pairs of feature modules', [A.job_shapes.job(__name__, 'pairs', s, 16, ctx.quick) for s in range(16)])
     ctx.level('deviation documents k<=1 via parser', [A.job_deviations.job(__name__, b, 1, 0, 1) for b in range(len(G.base_documents()))])
+    from .. import docspace as DS
+    mc = ctx.pick(250, 1500)
+    ctx.level('single edits of corpus and base documents <= %d characters via parser' % mc, [A.job_edits.job(__name__, mc, bi) for bi in range(len(DS.edit_bases(mc)))])
 
 
 def replay(case):
